@@ -121,6 +121,21 @@ def gen_case(seed, tier):
         for t in tasks:
             if t['target'] == tasks[0]['target'] or rng.random() < 0.3:
                 t['target'] = {'t': 'sharedtarget', 'i': 0}
+    # one spec object whose per-item key reads the CALL's scope, shared by calls with different scope= values
+    if ntasks >= 2 and rng.random() < 0.12:
+        key = ['Call', ['fn', 'eq'], {'t': 'list', 'v': [{'t': 'spec', 'v': ['T', 'T', []]},
+                                                           {'t': 'spec', 'v': ['T', 'S', [['.', 'sv']]]}]}, None]
+        shared = [rng.choice([
+            ['Iter', None, None, [], ['first', key, 'no-match']],
+            ['tuple', [['Iter', None, None, [['filter', key]], None], ['fn', 'list']]],
+            ['list', [['Coalesce', [['Check', key, {'equal_to': True}]], {'default': 'other'}]]],
+        ])]
+        vals = rng.sample(range(0, 6), ntasks)
+        for i, t in enumerate(tasks):
+            t['spec'] = ['shared', 0]
+            t['target'] = {'t': 'simiter', 'n': ctx.new_nid(), 'v': [rng.randint(0, 5) for _ in range(rng.randint(2, 6))]}
+            t['kw'] = {'scope': [['sv', vals[i]]]}
+            t.pop('via', None)
     # registries: some tasks go through Glommers that carry their own registrations
     glommers = []
     default_regs = []
